@@ -11,10 +11,11 @@ try:
 except FileNotFoundError:
     pass
 engines = {}
+REGISTERED = set(open(os.path.join(V, "tools", "registered.txt")).read().split())
 for p in props:
     pid = p["id"]
     path = os.path.join(V, "vf", "checks", pid.lower() + ".py")
-    if not os.path.exists(path):
+    if not os.path.exists(path) or pid not in REGISTERED:
         na.append({"property_id": pid, "reason": NA_REASONS.get(pid, "check not built yet in this session (design in DESIGN.md section 3); no claim made")})
         continue
     m = importlib.import_module("vf.checks." + pid.lower())
